@@ -43,14 +43,14 @@ package rtree
 //@   modifies nothing
 
 //@ func enlarge
-//@   prop C11
+//@   prop C11, C12
 //@   mode real
 //@   requires [nonnil] r1 != nil && r2 != nil
 //@   ensures [join] r1.Min.X == goMin(old(r1.Min.X), old(r2.Min.X)) && r1.Min.Y == goMin(old(r1.Min.Y), old(r2.Min.Y)) && r1.Max.X == goMax(old(r1.Max.X), old(r2.Max.X)) && r1.Max.Y == goMax(old(r1.Max.Y), old(r2.Max.Y))
 //@   modifies *r1
 
 //@ func boundingBox
-//@   prop C11
+//@   prop C11, C12
 //@   mode real
 //@   requires [nonnil] r1 != nil && r2 != nil
 //@   ensures [join] fresh(result) && result.Min.X == goMin(r1.Min.X, r2.Min.X) && result.Min.Y == goMin(r1.Min.Y, r2.Min.Y) && result.Max.X == goMax(r1.Max.X, r2.Max.X) && result.Max.Y == goMax(r1.Max.Y, r2.Max.Y)
@@ -59,7 +59,7 @@ package rtree
 //@ pred modestB(b geom.Bounds) = -1.0e100 <= b.Min.X && b.Min.X <= 1.0e100 && -1.0e100 <= b.Min.Y && b.Min.Y <= 1.0e100 && -1.0e100 <= b.Max.X && b.Max.X <= 1.0e100 && -1.0e100 <= b.Max.Y && b.Max.Y <= 1.0e100
 
 //@ func initBoundingBox
-//@   prop C11
+//@   prop C11, C12
 //@   mode real
 //@   requires [nonnil] r != nil && r1 != nil && r2 != nil && r != r2
 //@   ensures [join] *r == joinB(old(*r1), old(*r2))
@@ -227,7 +227,7 @@ package rtree
 //@     invariant e == nil
 
 //@ func (tree *Rtree) adjustTree
-//@   prop C11
+//@   prop C11, C12
 //@   nosafety
 //@   opt trustpre=rtree
 //@   opt havoc=node,entry,geom.Bounds
@@ -243,7 +243,7 @@ package rtree
 //@ spec envB(es []entry, k int) geom.Bounds decreases k = k <= 1 ? *es[0].bb : joinB(envB(es, k-1), *es[k-1].bb)
 
 //@ func (n *node) computeBoundingBox
-//@   prop C11
+//@   prop C11, C12
 //@   mode real
 //@   requires [nonnil] n != nil && boxesOK(n)
 //@   ensures [fresh] result != nil && fresh(result)
@@ -288,7 +288,7 @@ package rtree
 //@     invariant #2 <= len(leaf.entries) && leaf != nil && leaf.leaf && leaf.level == 1
 
 //@ func (tree *Rtree) condenseTree
-//@   prop C11
+//@   prop C11, C12
 //@   nosafety
 //@   opt trustpre=rtree
 //@   opt havoc=node,entry,geom.Bounds
